@@ -365,6 +365,38 @@ fn native_spec() {
                 Err(e) => println!("SPEC-REPLAY MISMATCH target=remove_overrides case={argv:?}: rejected as {:?}", e.kind()),
             }
         }
+    } else if target == "help_possible_values" {
+        // C12: help renders for any mix of hidden / visible possible values with or without help
+        std::panic::set_hook(Box::new(|_| {}));
+        for bits in 0..16u8 {
+            let (h1, help1, h2, help2) = (bits & 1 != 0, bits & 2 != 0, bits & 4 != 0, bits & 8 != 0);
+            let r = std::panic::catch_unwind(move || {
+                let mut p1 = crate::builder::PossibleValue::new("zzone").hide(h1);
+                if help1 {
+                    p1 = p1.help("first");
+                }
+                let mut p2 = crate::builder::PossibleValue::new("zztwo").hide(h2);
+                if help2 {
+                    p2 = p2.help("second");
+                }
+                let mut cmd = Command::new("p").long_about("long").arg(Arg::new("m").long("mode").action(ArgAction::Set).value_parser([p1, p2]).help("mode"));
+                (cmd.render_help().to_string(), cmd.render_long_help().to_string())
+            });
+            match r {
+                Ok((s, l)) => {
+                    for (what, text) in [("short", &s), ("long", &l)] {
+                        if (h1 && text.contains("zzone")) || (h2 && text.contains("zztwo")) {
+                            println!("SPEC-REPLAY MISMATCH target=help_possible_values case=hide1={h1} help1={help1} hide2={h2} help2={help2}: a hidden possible value appears in {what} help");
+                        }
+                    }
+                }
+                Err(e) => {
+                    let msg = e.downcast_ref::<String>().cloned().or_else(|| e.downcast_ref::<&str>().map(|s| s.to_string())).unwrap_or_default();
+                    println!("SPEC-REPLAY MISMATCH target=help_possible_values case=hide1={h1} help1={help1} hide2={h2} help2={help2}: help rendering PANICKED: {}", msg.chars().take(80).collect::<String>());
+                }
+            }
+        }
+        let _ = std::panic::take_hook();
     } else if target == "match_arg_error" {
         // C10: the error kind names a rule the input really breaks
         for acws in [false, true] {
